@@ -64,12 +64,12 @@ Definition step (s : st) (c : N) : option st :=
   match m with
   | Out => if is_ws c then Some (Out, ts) else if c =? q then Some (InStr [], ts)
            else if is_punct c then Some (Out, TP c :: ts) else Some (InAtom [c], ts)
-  | InStr acc => if c =? q then Some (Out, TStr (rev acc) :: ts) else if c =? bs then Some (InEsc acc, ts)
+  | InStr acc => if c =? q then Some (Out, TStr (frev acc) :: ts) else if c =? bs then Some (InEsc acc, ts)
                  else if c <? 32 then None else Some (InStr (c :: acc), ts)
   | InEsc acc => if c <? 32 then None else Some (InStr (c :: bs :: acc), ts)
-  | InAtom acc => if is_ws c then Some (Out, TAtom (rev acc) :: ts)
-                  else if c =? q then Some (InStr [], TAtom (rev acc) :: ts)
-                  else if is_punct c then Some (Out, TP c :: TAtom (rev acc) :: ts) else Some (InAtom (c :: acc), ts)
+  | InAtom acc => if is_ws c then Some (Out, TAtom (frev acc) :: ts)
+                  else if c =? q then Some (InStr [], TAtom (frev acc) :: ts)
+                  else if is_punct c then Some (Out, TP c :: TAtom (frev acc) :: ts) else Some (InAtom (c :: acc), ts)
   end.
 
 Fixpoint run (s : st) (l : text) : option st :=
@@ -78,7 +78,7 @@ Fixpoint run (s : st) (l : text) : option st :=
 (* the token sequence of a text: None when it is not lexically JSON (unterminated or broken string) *)
 Definition tokens (s : text) : option (list tok) :=
   match run (Out, []) s with
-  | Some (Out, ts) => Some (rev ts)
-  | Some (InAtom acc, ts) => Some (rev (TAtom (rev acc) :: ts))
+  | Some (Out, ts) => Some (frev ts)
+  | Some (InAtom acc, ts) => Some (frev (TAtom (frev acc) :: ts))
   | _ => None
   end.
